@@ -15,6 +15,23 @@ import metric_learn.mmc as mm
 from metric_learn import MMC, MMC_Supervised
 
 
+def first_cycle(A0, S, t, max_proj):
+    """does the alternating projection of cycle 0 (mmc.py:104-128) reach the 1 % test within max_proj steps?"""
+    d = A0.shape[0]
+    A = np.array(A0, dtype=float, copy=True)
+    w = np.einsum('ij,ik->jk', S, S).ravel()
+    w1 = w / np.linalg.norm(w); t1 = t / np.linalg.norm(w)
+    for _ in range(max_proj):
+        x0 = A.ravel()
+        if not w.dot(x0) <= t:
+            A[:] = (x0 + (t1 - w1.dot(x0)) * w1).reshape(d, d)
+        l, V = np.linalg.eigh((A + A.T) / 2)
+        A[:] = np.dot(V * np.maximum(0, l[None, :]), V.T)
+        if (w.dot(A.ravel()) - t) / t < 1e-2:
+            return True
+    return False
+
+
 def run(R, tier, seed, driver_ok):
     quiet()
     rng = np.random.RandomState(seed + 1414)
@@ -22,23 +39,49 @@ def run(R, tier, seed, driver_ok):
     R.rule = ('labelled pair sets (both labels, d ≥ 2) × init ∈ {identity, covariance, random, array} × max_iter × tol × diagonal ∈ {False, True} × '
               'diagonal_c; MMC and MMC_Supervised. case = (pairs, options); all non-trivial')
     R.assumptions = ['the eigen-decomposition inside the PSD projection is external (its output is what the twin projects)',
-                     'max_proj is left at its default (10000) so that one projection converges, as the quantifier demands']
+                     'max_proj: default (10000) in the first stream; small in the second stream, where the first cycle is re-simulated and instances whose first projection does not converge are outside the quantifier']
     lines, meta = [], []
-    for rep in range(reps):
-        d = int(rng.randint(2, 6))
+    extra = 24 if tier == 'quick' else 150
+    for rep in range(reps + extra):
+        # second stream: a small max_proj with an initial matrix whose FIRST projection is cheap (a multiple of the
+        # similar-pair scatter, or the identity on lattice data) while later ones may run out of projection steps
+        special = rep >= reps
+        d = int(rng.randint(2, 6)) if not special else int(rng.randint(2, 4))
         X, y = zoo.blobs(rng, d)
-        idx, yy = zoo.pairs_from(X, y, rng, n=int(rng.randint(5, 25)))
+        if special and rep % 2 == 1:
+            X = np.round(X)                                  # lattice data
+        idx, yy = zoo.pairs_from(X, y, rng, n=int(rng.randint(5, 25)) if not special else int(rng.randint(3 * d + 4, 30)))
         pairs = X[idx]
         init_kind = ['identity', 'covariance', 'random', 'array'][rep % 4]
         B = rng.randn(d, d)
         init = B.dot(B.T) + 0.3 * np.eye(d) if init_kind == 'array' else init_kind
-        diagonal = rep % 3 == 2
-        max_iter = int(rng.choice([1, 3, 10, 40]))
+        max_proj = 10000
+        if special:
+            max_proj = int(rng.choice([1, 2, 3, 4, 6]))
+            if rep % 2 == 1:
+                # isotropic similar-pair scatter: the same number of unit steps along every axis
+                k = int(rng.randint(2, 5))
+                base = np.round(rng.randn(k * d, d) * 3)
+                steps = np.tile(np.eye(d), (k, 1)) * rng.choice([-1.0, 1.0], size=(k * d, 1))
+                posp = np.stack([base, base + steps], axis=1)
+                nn = int(rng.randint(d + 2, 12))
+                negp = np.stack([np.round(rng.randn(nn, d) * 3), np.round(rng.randn(nn, d) * 3) + rng.choice([-4.0, 4.0], size=(nn, d))], axis=1)
+                pairs = np.concatenate([posp, negp]); yy = np.array([1] * len(posp) + [-1] * len(negp))
+                perm = rng.permutation(len(yy)); pairs, yy = np.ascontiguousarray(pairs[perm]), yy[perm]
+            if rep % 2 == 0:
+                Sp = pairs[yy == 1][:, 0] - pairs[yy == 1][:, 1]
+                Wm = Sp.T.dot(Sp)
+                if np.linalg.eigvalsh(Wm).min() > 1e-6 * np.abs(Wm).max():
+                    init_kind, init = 'scatter', Wm * float(rng.uniform(0.5, 2.0))
+            else:
+                init_kind, init = 'identity', 'identity'
+        diagonal = rep % 3 == 2 and not special
+        max_iter = int(rng.choice([1, 3, 10, 40])) if not special else int(rng.choice([10, 40, 100]))
         tol = float(rng.choice([1e-3, 1e-6]))
         dc = float(rng.choice([0.5, 1.0, 5.0]))
         sd = int(rng.randint(1 << 30))
-        supervised = rep % 8 == 5
-        case = {'init': init_kind, 'diagonal': diagonal, 'max_iter': max_iter, 'tol': tol, 'diagonal_c': dc, 'pairs': pairs, 'y': yy, 'supervised': supervised}
+        supervised = rep % 8 == 5 and not special
+        case = {'init': init_kind, 'max_proj': max_proj, 'diagonal': diagonal, 'max_iter': max_iter, 'tol': tol, 'diagonal_c': dc, 'pairs': pairs, 'y': yy, 'supervised': supervised}
         store = {}
         orig = mm._initialize_metric_mahalanobis
 
@@ -53,13 +96,13 @@ def run(R, tier, seed, driver_ok):
             with warnings.catch_warnings(), contextlib.redirect_stdout(buf):
                 warnings.simplefilter('ignore')
                 if supervised:
-                    est = MMC_Supervised(init=init, diagonal=diagonal, max_iter=max_iter, tol=tol, diagonal_c=dc, n_constraints=15, random_state=sd, verbose=True)
+                    est = MMC_Supervised(init=init, max_proj=max_proj, diagonal=diagonal, max_iter=max_iter, tol=tol, diagonal_c=dc, n_constraints=15, random_state=sd, verbose=True)
                     est.fit(X, y)
                     from metric_learn import Constraints
                     from metric_learn.constraints import wrap_pairs
                     pairs, yy = wrap_pairs(X, Constraints(y).positive_negative_pairs(15, random_state=sd))
                 else:
-                    est = MMC(init=init, diagonal=diagonal, max_iter=max_iter, tol=tol, diagonal_c=dc, random_state=sd, verbose=True)
+                    est = MMC(init=init, max_proj=max_proj, diagonal=diagonal, max_iter=max_iter, tol=tol, diagonal_c=dc, random_state=sd, verbose=True)
                     est.fit(pairs, yy)
         except ValueError as e:
             outcome = 'ValueError'
@@ -67,9 +110,9 @@ def run(R, tier, seed, driver_ok):
             outcome = type(e).__name__
         finally:
             mm._initialize_metric_mahalanobis = orig
-        R.case(('c14', pairs.tobytes().hex()[:64], init_kind, diagonal, max_iter, tol, dc, supervised), True,
-               sample={'d': d, 'n_pairs': len(yy), 'init': init_kind, 'diagonal': diagonal, 'max_iter': max_iter, 'outcome': outcome},
-               branch=f'{"diag" if diagonal else "full"}:{init_kind}')
+        R.case(('c14', pairs.tobytes().hex()[:64], init_kind, diagonal, max_iter, tol, dc, supervised, max_proj), True,
+               sample={'d': d, 'n_pairs': len(yy), 'init': init_kind, 'diagonal': diagonal, 'max_iter': max_iter, 'max_proj': max_proj, 'outcome': outcome},
+               branch=f'{"diag" if diagonal else "full"}:{init_kind}' + (':small-max_proj' if special else ''))
         if outcome != 'ok':
             if not (diagonal and outcome == 'ValueError'):
                 R.violation(f'MMC/fit-raises-{outcome}', f'MMC.fit (diagonal={diagonal}) raised {outcome}', case)
@@ -97,6 +140,12 @@ def run(R, tier, seed, driver_ok):
         # the property's quantifier: max_proj large enough for the projections of the first cycle to converge
         m0 = re.search(r'mmc iter: 0, conv = \S+, projections = (\d+)', buf.getvalue())
         first_cycle_converged = (m0 is None) or int(m0.group(1)) < est.max_proj
+        if special:
+            first_cycle_converged = first_cycle(A0, S, t, max_proj)
+            R.count('small-max_proj:first-cycle-converged' if first_cycle_converged else 'small-max_proj:first-cycle-not-converged')
+            later = [int(k) for k in re.findall(r'mmc iter: [1-9]\d*, conv = \S+, projections = (\d+)', buf.getvalue())]
+            if first_cycle_converged and any(k >= max_proj for k in later):
+                R.count('small-max_proj:later-cycle-ran-out-of-projections')
         if not first_cycle_converged:
             R.count('projection-not-converged-in-max_proj (outside the quantifier)')
         elif ssum > 1.01 * t * (1 + 1e-9) + 1e-300:
